@@ -851,7 +851,15 @@ class SymX:
                 self.frame.partial = True
             st.pc = st.pc + (f,) if f != TRUE else st.pc
             return st
-        if isinstance(s, (ast.Pass, ast.Import, ast.ImportFrom, ast.Global, ast.Nonlocal, ast.Delete)):
+        if isinstance(s, ast.Delete):
+            for t in s.targets:
+                if isinstance(t, ast.Subscript):
+                    # `del xs[i]` / `del xs[:]`: recorded like the other in-place updates of a container (the key is read off the node)
+                    base = self.eval(t.value, st)
+                    self._record("delitem", ("builtin", "delitem"), base, "__delitem__", (self.eval(t.slice, st),), (), st, t, None)
+                    self._mutate(base, "__delitem__", (), st)
+            return st
+        if isinstance(s, (ast.Pass, ast.Import, ast.ImportFrom, ast.Global, ast.Nonlocal)):
             return st
         if isinstance(s, (ast.FunctionDef, ast.AsyncFunctionDef)):
             nf = getattr(s, "_func", None)
